@@ -229,6 +229,19 @@ def run():
     if errs:
         raise tlc.MachineryError('harness error in crash enumeration: ' + errs[0])
     verd = validate(rep, traces)
+    # the binding binds: a recorded interruption whose follow-up run "resumed" although no checkpoint was published, and one
+    # whose operation log lost an entry, must be rejected
+    import copy
+    probe = next((tr for tr in traces if tr['post']['final'] < 0 and tr['follow']['decision'] == 'recompute' and len(tr['ev']) > 3), None)
+    if probe is not None:
+        c1 = copy.deepcopy(probe)
+        c1['follow']['decision'] = 'resume'
+        c2 = copy.deepcopy(probe)
+        del c2['ev'][len(c2['ev']) // 2]
+        v1, v2 = validate(rep, [c1, c2])
+        if v1['c08'] or (v2['fs_eq'] and v2['matched'] == v2['total']):
+            raise tlc.MachineryError('CheckpointTrace accepted a corrupted trace (c08=%s, matched=%s/%s): the trace spec does not bind' % (v1['c08'], v2['matched'], v2['total']))
+        rep.notes['trace_binding_selftest'] = 'a follow-up run recorded as resuming without a published checkpoint fails C08; a log with one file operation removed is not a behaviour of Checkpoint.tla'
     for it, tr, v in zip(items, traces, verd):
         rep.count(1, traces=1)
         rep.mark_distinct(it)
